@@ -2,6 +2,7 @@ package mon
 
 import (
 	"fmt"
+	"math/rand/v2"
 	"regexp"
 	"strconv"
 	"sync/atomic"
@@ -492,7 +493,11 @@ func runC13(r *Run) int {
 				}
 			}
 			for level := spec.LTemp; level <= spec.LEnv; level++ {
-				s := render3(&vv, level, nil)
+				var sh *rand.Rand
+				if (mask+level)%2 == 1 {
+					sh = r.Rng(uint64(idx*16+mask) + 1<<46)
+				}
+				s := render3(&vv, level, sh)
 				w.Eval(1)
 				b, t, _, ok := obsScores3(w, level, s)
 				if ok && b != t {
@@ -537,7 +542,11 @@ func runC13(r *Run) int {
 			}
 		}
 		respell(&v, spec.LTemp, rng)
-		s := render3(&v, spec.LEnv, nil)
+		var sh *rand.Rand
+		if idx%2 == 1 { // every second vector in a random token order
+			sh = rng
+		}
+		s := render3(&v, spec.LEnv, sh)
 		w.Eval(1)
 		b, t, e, ok := obsScores3(w, spec.LEnv, s)
 		if !ok {
